@@ -103,7 +103,7 @@ def main():
     # run budget: the quick check is stopped from outside after 900 s, so it stops itself before that and reports what it
     # did not get to as not explored; override with VERIF_BUDGET_S
     try:
-        budget = float(os.environ.get("VERIF_BUDGET_S", "800" if tier == "quick" else "43200"))
+        budget = float(os.environ.get("VERIF_BUDGET_S", "800" if tier == "quick" else "7200"))
     except ValueError:
         budget = 800.0
     reserve = 150.0 if tier == "quick" else 900.0     # native replays and evidence
